@@ -67,6 +67,8 @@ def make_cfg(seed, i, typ):
                                allow=("restarts", "regression", "growing"), averaging_p=0.3, noise_p=0.3)
         if cfg.get("reg"):
             cfg["args"]["maxfun"] = min(cfg["args"]["maxfun"], 25)
+        if i % 4 == 1:
+            cfg = campaign.growing_restart_variant(cfg, rng, nan_fault=bool(i % 8 == 1))
     elif typ == "reggrow":
         # regulariser + bounds + growing / random-direction options: stored raw points can lie outside the box while the objective
         # is evaluated at the clipped point (found by the C17 in-situ slot check: h was added at the raw point)
